@@ -50,6 +50,9 @@ def fmt_rule(analysis: Analysis, res: RuleResult) -> None:
     dec = analysis.p.func("ota:fw_hex_to_int")
     enc = analysis.p.func("ota:fw_int_to_hex")
     strict_hex(analysis, res, "C09-R1")
+    from .c10 import zero_rules
+
+    zero_rules(analysis, res, "C09-R3")
     res.add("C09-R1", "ota:fw_int_to_hex / result is hex text (hexlify / bytes.hex) of packed words", any(True for _ in common.calls_in(enc.node, "hexlify")) or any(True for _ in common.calls_in(enc.node, "hex")), common.where(analysis, enc, enc.node), "")
 
 
@@ -284,6 +287,7 @@ def run(analysis: Analysis, tier: str) -> RuleResult:
         "CRC value, Intel-HEX decoding and reassembly equality are not decided.",
     ]
     fmt_rule(analysis, res)
+    common.check_no_key_removal(analysis, res, "C09-R3", maps={"firmware"}, what="no-removal scan of the firmware store", why="a loaded firmware image can be dropped from the store: a node still scheduled for it (or in the middle of its transfer) gets no further blocks")
     last = analysis.versions[-1]
     for summ in common.pmap(analysis, echo_worker, [(q, (last, "serial", "sync")) for q in ("ota:OTAFirmware.respond_fw", "ota:OTAFirmware.respond_fw_config")]):
         q = summ["qual"]
